@@ -416,7 +416,7 @@ def mk_ring(w, poly):
             break
         at = _ATOM[mono[0]]
         s = co.bit_length() - 1
-        span = (mask(at.w) << s) & m
+        span = (mask(min(at.w, w)) << s) & m
         if span & occupied:
             ok = False
             break
@@ -425,7 +425,8 @@ def mk_ring(w, poly):
     if ok:
         r = const(poly.get((), 0), w)
         for at, s in parts:
-            r = xor(r, shl(zext(at, w) if at.w < w else at, s))
+            atw = zext(at, w) if at.w < w else (trunc(at, w) if at.w > w else at)
+            r = xor(r, shl(atw, s))
         return r
     items = tuple(sorted(poly.items()))
     atoms = sorted({i for mono, _ in items for i in mono})
@@ -904,6 +905,8 @@ def show(t, depth=4):
         return "%#x:%d" % (t.aux, t.w)
     if t.op == "sym":
         return str(t.aux)
+    if t.op == "rng":
+        return "%s∈[%d,%d]" % (t.aux[0], t.aux[1][0], t.aux[1][1])
     if depth <= 0:
         return "<%s#%d>" % (t.op, t.id)
     if t.op == "aff":
@@ -1061,7 +1064,7 @@ def atoms_of(t, acc=None):
         if not isinstance(x, T) or x.id in seen:
             continue
         seen.add(x.id)
-        if x.op == "sym" or x.op == "arr":
+        if x.op == "sym" or x.op == "arr" or x.op == "rng":
             acc.add(x.aux if x.op == "sym" else x.aux[0])
         if x.op == "ring":
             for mono, _ in x.aux:
@@ -1069,6 +1072,110 @@ def atoms_of(t, acc=None):
                     stack.append(_ATOM[i])
         stack.extend(x.args)
     return acc
+
+
+# --------------------------------------------------------------------------
+# substitution
+
+
+def apply_packed(p, w, wa, sterm):
+    """M * sterm where M (w x wa) is given column-packed and sterm has width wa"""
+    cs = cols(p, w, wa)
+    c2, e2 = aff_parts(sterm)
+    c = 0
+    i = 0
+    x = c2
+    while x:
+        if x & 1:
+            c ^= cs[i]
+        x >>= 1
+        i += 1
+    ents = {}
+    for b, pb in e2.items():
+        cb = cols(pb, wa, b.w)
+        newc = []
+        for j in range(b.w):
+            m = cb[j]
+            acc = 0
+            i = 0
+            while m:
+                if m & 1:
+                    acc ^= cs[i]
+                m >>= 1
+                i += 1
+            newc.append(acc)
+        pk = pack(newc, w)
+        if pk:
+            ents[b] = ents.get(b, 0) ^ pk
+    return mk_aff(w, c, ents)
+
+
+def subst(t, m, memo=None):
+    """replace atoms according to m (dict term -> term of the same width) and re-normalise"""
+    if memo is None:
+        memo = {}
+    r = memo.get(t.id)
+    if r is not None:
+        return r
+    if t in m:
+        r = m[t]
+    elif t.op in ("const", "sym", "rng", "arr"):
+        r = t
+    elif t.op == "aff":
+        c, ents = t.aux
+        r = const(c, t.w)
+        for a, p in zip(t.args, ents):
+            sa = subst(a, m, memo)
+            if sa is a:
+                r = xor(r, mk_aff(t.w, 0, {a: p}))
+            else:
+                r = xor(r, apply_packed(p, t.w, a.w, sa))
+    elif t.op == "ring":
+        w = t.w
+        r = const(0, w)
+        for mono, co in t.aux:
+            term = const(co, w)
+            for i in mono:
+                a = _ATOM[i]
+                sa = subst(a, m, memo)
+                if sa.w < w:
+                    sa = zext(sa, w)
+                elif sa.w > w:
+                    sa = trunc(sa, w)
+                term = mul(term, sa)
+            r = add(r, term)
+    else:
+        na = tuple(subst(a, m, memo) if isinstance(a, T) else a for a in t.args)
+        if all(x is y for x, y in zip(na, t.args)):
+            r = t
+        elif t.op == "ite":
+            r = ite(na[0], na[1], na[2])
+        elif t.op == "ult":
+            r = ult(na[0], na[1])
+        elif t.op == "slt":
+            r = slt(na[0], na[1])
+        elif t.op == "eqz":
+            r = eqz(na[0])
+        elif t.op == "and1":
+            r = and1(list(na))
+        elif t.op == "and":
+            r = band(na[0], na[1])
+        elif t.op == "udiv":
+            r = udiv(na[0], na[1])
+        elif t.op == "urem":
+            r = urem(na[0], na[1])
+        elif t.op == "lz":
+            r = lz(na[0])
+        elif t.op == "uabs":
+            r = uabs(na[0])
+        elif t.op == "shlv":
+            r = shl_var(na[0], na[1])
+        elif t.op == "lshrv":
+            r = lshr_var(na[0], na[1])
+        else:
+            r = _mk(t.op, t.w, na, t.aux)
+    memo[t.id] = r
+    return r
 
 
 # --------------------------------------------------------------------------
